@@ -18,6 +18,10 @@ def make_row(hs, label):
         return {'x': 1}
     if label == 'A2':
         return {'id': 'a', 'dup': 1}
+    if label == 'UA':
+        return {'id': hs.Uri('a')}     # ids of the text-like kinds: str subclasses with their own notion of equality
+    if label == 'BA':
+        return {'id': hs.Bin('a')}
     if label == 'I2':
         return {'id': 2}               # an id that is a valid POSITION for some lengths of the grid
     if label == 'N1M1':
@@ -69,6 +73,10 @@ def row_label(hs, row):
         return 'ZE'
     if i == 0 and isinstance(i, int) and not isinstance(i, bool):
         return 'Z0'
+    if isinstance(i, hs.Uri):
+        return 'UA'
+    if isinstance(i, hs.Bin):
+        return 'BA'
     if i == 'a':
         return 'A'
     if i == 'b':
@@ -107,7 +115,7 @@ class GridSpec(H.Spec):
 
     def fresh(self, root):
         hs = self.hs
-        if root[0] in ('fresh', 'fresh-numeric'):
+        if root[0] in ('fresh', 'fresh-numeric', 'fresh-kinds'):
             g = hs.Grid(version='3.0', metadata={'m': 'meta'}, columns=[('id', []), ('x', [('u', 'kg')]), ('dup', [])])
             return g, []
         if root[0] == 'fresh-2.0':
@@ -137,7 +145,7 @@ class GridSpec(H.Spec):
         raise HarnessError(root)
 
     def derived_roots(self, g, model, hist, root):
-        if root[0] not in ('fresh', 'fresh-unversioned', 'fresh-reordered', 'fresh-numeric', 'fresh-2.0') or len(hist) > 3 or not model:
+        if root[0] not in ('fresh', 'fresh-unversioned', 'fresh-reordered', 'fresh-numeric', 'fresh-2.0', 'fresh-kinds') or len(hist) > 3 or not model:
             return []
         out = []
         n = len(model)
@@ -193,6 +201,10 @@ class GridSpec(H.Spec):
             return hs.Ref('r')
         if k == 'Ref:r:dis':
             return hs.Ref('r', 'dis')
+        if k == 'Uri:a':
+            return hs.Uri('a')
+        if k == 'Bin:a':
+            return hs.Bin('a')
         return k
 
     # ---- one step on both sides -------------------------------------------------------------------
@@ -489,12 +501,29 @@ class C15Numeric(GridSpec):
         return [o for o in GridSpec.ops(self, g, model) if o[0] not in ('extend', 'extend_gen')]
 
 
+class C15Kinds(GridSpec):
+    """Ids and keys of the text-like kinds (Uri, Bin) next to a plain string with the same text."""
+    prop = 'C15'
+    name = 'grid-text-kind-ids'
+    ROOTS = [['fresh-kinds']]
+    ROWS = ['E', 'A', 'UA', 'BA']
+    NONDICT = []
+
+    def lookup_keys(self):
+        return ['a', 'Uri:a', 'Bin:a', 'zz']
+
+    def ops(self, g, model):
+        return [o for o in GridSpec.ops(self, g, model) if o[0] not in ('extend', 'extend_gen')]
+
+
 def spec_for(prop, root):
     r = root
     while r and r[0] in ('slice', 'filter'):
         r = r[1]
     if r and r[0] == 'fresh-numeric':
         return C15Numeric()
+    if r and r[0] == 'fresh-kinds':
+        return C15Kinds()
     return C14Thorough() if prop == 'C14' else C15Thorough()
 
 
@@ -559,6 +588,9 @@ def run(ctx, prop):
         st2, info2 = H.bfs(C15Numeric, depth=depth, seed=ctx.seed, jobs=ctx.jobs)
         st.merge(st2)
         info['numeric_ids'] = dict(info2, rows=C15Numeric.ROWS, lookup_keys=C15Numeric().lookup_keys())
+        st3, info3 = H.bfs(C15Kinds, depth=depth, seed=ctx.seed, jobs=ctx.jobs)
+        st.merge(st3)
+        info['text_kind_ids'] = dict(info3, rows=C15Kinds.ROWS, lookup_keys=C15Kinds().lookup_keys())
     st.outcomes |= set(list(st.inputs)[:1000])
     spec = factory()
     return {
